@@ -165,6 +165,34 @@ pub fn spaces(tier: &str) -> Vec<Box<dyn Space>> {
         Case { prior: vec![], input: b }
     });
     v.push(fam_space(counts, 18));
+    // buffers LONGER than a datagram: V5 / V7 packets with the counts at which count x record size passes 65 535,
+    // alone / followed by a V5 packet / cut 20 bytes short, and chains of small packets totalling about 140 KB
+    let big = family("buffers beyond a datagram: v5x{1365,1366} v7x{1260,1261,1262} x {alone, +V5x1, cut} and 140 KB chains", 5 * 3 + 4, move |i| {
+        let input = if i < 15 {
+            let (ver, n) = [(5u16, 1365usize), (5, 1366), (7, 1260), (7, 1261), (7, 1262)][(i / 3) as usize];
+            let mut b = crate::wire::fixed_distinct(ver, n, 5);
+            match i % 3 {
+                1 => b.extend(crate::wire::fixed_distinct(5, 1, 9)),
+                2 => {
+                    let l = b.len();
+                    b.truncate(l - 20);
+                }
+                _ => {}
+            }
+            b
+        } else {
+            let k = [0usize, 7, 2, 100][(i - 15) as usize];
+            let mut b = vec![];
+            let mut pos = 0;
+            while b.len() < 140_000 {
+                b.extend(if k == 100 { menu::packet([0, 7, 2, 8, 3, 4, 9, 6][pos % 8], pos) } else { menu::packet(k, pos) });
+                pos += 1;
+            }
+            b
+        };
+        Case { prior: vec![], input }
+    });
+    v.push(fam_space(big, 6));
     v
 }
 
